@@ -50,8 +50,8 @@ def population(tier, seed):
         per_profile = 18
         per_profile16 = 8
     else:
-        per_profile = 150
-        per_profile16 = 60
+        per_profile = 100
+        per_profile16 = 40
     progs = [minic.flatten_core(trees[i], "c%05d" % i, PLAT) for i in idx]
     ncore = len(progs)
     for j, prof in enumerate(PROFILES):
